@@ -724,7 +724,7 @@ def classify(c09, c, probes):
     t = c["tgt"]
     if t["gran"] == 4 and c["real"] in ("CRASH", "ERR") and len(c["stmts"]) == 1 and c["stmts"][0]["k"] == "IX" \
             and all(a[0] in ("i", "f") for a in c["stmts"][0]["args"]):
-        return "intel-data-on-32-bit-granular-segment-crash"
+        return "intel-data-on-32-bit-granular-segment-crash" if c["real"] == "CRASH" else "intel-data-on-32-bit-granular-segment-refused"
     if c["real"] == "CRASH":
         return None
     sigs = []
